@@ -12,905 +12,904 @@ Definition show_fres (r : fres) : string :=
   end.
 Definition check (rs : list rune) : string := digest (show_fres (format_res rs)).
 Definition full (rs : list rune) : string := show_fres (format_res rs).
-Eval vm_compute in ("<<<M146>>>" ++ check (runes_of_ascii "MetaData
-chars {	int8 Z9_,	float rootA	`tab	here`// @lengthOf(
-,
+Eval vm_compute in ("<<<M41>>>" ++ check (runes_of_ascii "  root packet u{ match crc as
+leftPad { [ 00 ] : //
+o,  42
+    /// triple
+    :
+// trailing space 
+//x
+crc [
+""a	b"" ,
+""CRC32"" , ""a\""b"" , ""\n""
+, 0
+, 255 ] : // packet A { u8 x, }
+zchar ,
+// " ++ [128512]%N ++ runes_of_ascii " emoji
+//
+} //	t
+,	string stringy
+    @lengthOf(matchKey ),
+    int ,@tag(
+1)repeat	zchar[ 4294967296] roots , @leftPad ( '\x00'	) x
+    //x
+    @lengthOf( crc ), } packet// c
+repeatCount { zchar[ 255]	f32a	@calculatedFrom(
+    ""x y"" )
+,@tag(
+    255) char[] asx
+@calculatedFrom(""" ++ [28040; 24687]%N ++ runes_of_ascii """
+    // " ++ [27880; 37322]%N ++ runes_of_ascii "
+    ) , leftPad{
+/// triple
+// a // b
+repeat int u8x ,
+i64
+trueish	@lengthOf(	i8i8 ) `" ++ [28040; 24687; 31867; 22411]%N ++ runes_of_ascii "`
+    // a // b
+    ,
+repeat
+int64 //	t
+pack
+    , } ,
+    match float as o { //
+65535
+:
+Pad ,[
+""" ++ [128512]%N ++ runes_of_ascii """ , """ ++ [28040; 24687]%N ++ runes_of_ascii """,
+    0123456789 ]
 //x
 // @lengthOf(
-T o `it's` ,
-roots int , // c
-repeatCount MetaDataX, float32
-    falsey `say ""hi""`,} packet
-    msg_type
-{ repeat f32
-o // `tick` ""quote"" 'q'
-, @tag( 0
-)char[]  A	,  repeat char[] tag `say ""hi""` ,repeat char[ 0 ] Z9_ ,
-zchar[ 1 ] lengthOf ,
-i64 T , match float as
-leftPad {
-    007 : len /// triple
-, ""it's"" : len
-    , ""it's"" : // @lengthOf(
-float
-    [ 255 ,
-00
-, ""abc"", ""abc""
-,
-1
-, """ ++ [28040; 24687]%N ++ runes_of_ascii """ // `tick` ""quote"" 'q'
-, ""x y"" , """" // a // b
-] :	_x ,
-    """" : len ,""\" ++ [233]%N ++ runes_of_ascii """  : // a // b
-i64_
-, //	t
-}, roots{ char[ 1
-]// @lengthOf(
-Header
-@lengthOf( x_y_z )
-    , body u128 , // `tick` ""quote"" 'q'
-char[]
-float ,chars@lengthOf( x  )
-    `doc` ,}
-,
-    crc `it's`
-    // `tick` ""quote"" 'q'
-    , @calculatedFrom(""" ++ [128512]%N ++ runes_of_ascii """
-    )
-    BodyLength `" ++ [28040; 24687; 31867; 22411]%N ++ runes_of_ascii "` , }
-    packet
-    u128{  lengthOf ,pack
-@lengthOf( u8x// c
-)`// not a comment`// " ++ [27880; 37322]%N ++ runes_of_ascii "
-,@leftPad
-    (
-' ' ) float{match
-    asx as
-    charz
-{ [ 4294967296,""""
-, 255 ,42
-    ,""1""  ] : u8x ""{,}""	: Foo 42  :
-leftPad[ // trailing space 
-255 ,
-    // " ++ [128512]%N ++ runes_of_ascii " emoji
-    ""a\""b"" , ""it's""  , 4294967296 ] : stringy , 3
-:Header ,
-} ,match o // `tick` ""quote"" 'q'
-as
-    Pad
-    // trailing space 
-    { 3 :
-    i64_//x
-, } ,repeat
-    string msg_type ,
-    match
-packetx // " ++ [27880; 37322]%N ++ runes_of_ascii "
-as
-lengthOf
-    { [ ""x y"","""" ]
-:x_y_z
-// " ++ [27880; 37322]%N ++ runes_of_ascii "
-// c
-}, } ,i64 float,repeat
-    zchar[ 3  ] rootA
-    `crlf
-line`, match msg_type as len{
-""CRC32"":
-MetaDataX
-,
-} ,
-    f32
-A , char[
-0123456789 ] chars// " ++ [27880; 37322]%N ++ runes_of_ascii "
-`{ , }` , /// triple
-@calculatedFrom( ""a\""b""
-) string
-string_
-    `" ++ [233]%N ++ runes_of_ascii "` ,}
-")).
-Eval vm_compute in ("<<<M1866>>>" ++ check (runes_of_ascii "options {
-    BodyLength = 3;// " ++ [128512]%N ++ runes_of_ascii " emoji
-    T = ""packet"";
-    // c
-    // trailing space 
-    crc = true;
-    falsey = '\x00';
-}
-
-root packet A {
-    @leftPad('0')
-    char[65535] Header `" ++ [233]%N ++ runes_of_ascii "`,
-    @rightPad('0')
-    //
-    a1 @lengthOf(msg_type),
-    @lengthOf(rootA)
-    match _x as stringy {
-        ""CRC32"" : chars,
-        3 : float,
-        255 : asx,
-        10 : tag,
-        //
-    },
-    @calculatedFrom(""" ++ [128512]%N ++ runes_of_ascii """)
-    u32 u8x `crlf
-        line`,
-    repeat char[] asx `a\`,
-    @rightPad('0')
-    match f32a as Packet {
-        [
-            255, ""CRC32"", 007, ""1"", ""packet"",
-            00, 4294967296
-        ] : calculatedFrom,
-        ""packet"" : falsey,
-        ""a\""b"" : body,
-        7 : Packet,
-        // " ++ [128512]%N ++ runes_of_ascii " emoji
-        0123456789 : i64_,
-        // a // b
-        [4294967296, 0123456789] : options1,
-    },
-    crc @lengthOf(Foo),
-    @calculatedFrom(""{,}"")
-    @lengthOf(metadata)
-    @lengthOf(i8i8)
-    int64 options1 @calculatedFrom(""CRC32"") `line1
-        line2`,// @lengthOf(
-}
-
-packet a1 {
-    match lengthOf as x_y_z {
-        ""it's"" : matchKey,
-        10 : Packet,
-        [""abc""] : A,
-        10 : metadata,
-    },
-}
-
-MetaData body {
-    char string_,
-    char[] x,
-    len Pad,
-    string leftPad,
-}// trailing space ")).
-Eval vm_compute in ("<<<M1609>>>" ++ check (runes_of_ascii "
-
-  root packet i64_
-{ trueish
-
+:i8i8
+, 7 :
+asx 00: stringy } ,@calculatedFrom(
+""" ++ [233]%N ++ runes_of_ascii "t" ++ [233]%N ++ runes_of_ascii """ ) f32a
+// packet A { u8 x, }
+// trailing space 
+u , repeat msg_type `" ++ [233]%N ++ runes_of_ascii "` ,
+repeat zchar[
+42 ]crc
+    , uint64
+    // " ++ [27880; 37322]%N ++ runes_of_ascii "
+    lengthOf , repeat As``
     ,
-	@calculatedFrom( ""abc"" )  @tag(
-	7
-    ) 
-    // c
-int16 asx ,
-	@calculatedFrom(
-""a\\"" )float32
-crc
-
-    @lengthOf(	Foo  )
-    ,@tag(  // `tick` ""quote"" 'q'
-	  42// c
-  ) zchar[ 
-    // c
-	// packet A { u8 x, }
-    	7 ]  asx@lengthOf( calculatedFrom 
-)	`// not a comment`
-	,	//
-
-	repeat  zchar[
-
-    1 ]  // a // b
-  As 
-, 
-chars
-
-    `two words`
-
-    ,
-@calculatedFrom(
-""1""
-    )  @tag(
-	// `tick` ""quote"" 'q'
-  0123456789
-)
-
-    @leftPad 
-('0'
-)repeat char[] BodyLength  `tab	here`
-    , }
-MetaData  u128 	 // packet A { u8 x, }
-	{
-	u16 
-i64_ , float32
-asx //
-	`two words`, 	 //
-	i64
-
-    leftPad	,
-
-    zchar[  00// `tick` ""quote"" 'q'
-  ]
-_x
-, //
-
-}
-	MetaData chars 
-        //
-
+zchar[ 007 ] tag `tab	here`  , }	root packet charz
 {
-	Foo crc
-	`say ""hi""`
+    string msg_type , @calculatedFrom( """") repeat//	t
+string  tag `tab	here`
+    ,repeat calculatedFrom ,
+repeat Foo, uint64
+Foo@lengthOf( packetx) ,
+@rightPad  ( )	match	falsey as calculatedFrom { [ 0 , 10
+    , ""a\""b"" ] : metadata ,
+} , @calculatedFrom( ""\" ++ [233]%N ++ runes_of_ascii """ )
+    i64  As ``,
+    @lengthOf(
+rootA) u32 Logon // c
+@lengthOf(a1  ) , @calculatedFrom( """" ) @leftPad ( ' '
+    )
+    uint16
+i8i8
+@calculatedFrom( ""// no comment""
+) ,  } root packet// trailing space 
+uint8x {
+    repeat f32
+chars `tab	here` ,}
+MetaData calculatedFrom
+{
+//
+// `tick` ""quote"" 'q'
+metadata crc , }
 
-, uint8
-    u`two words`
-
-    , 	 // " ++ [128512]%N ++ runes_of_ascii " emoji
-f32
-pack	`crlf
-line`
-
+")).
+Eval vm_compute in ("<<<M1350>>>" ++ check (runes_of_ascii "// top
+options // c0a
+  // c0b
+{ // c1a
+  // c1b
+ArrayPrefixLenType // c2
+=
+    // c3
+u64 ; // c5
+FixedStringPadFromLeft // c6
+=
+    // c7
+true ; FixedStringPadChar // c10a
+  // c10b
+= // c11a
+  // c11b
+'0' ;
+    // c13
+}
+    // c14
+packet
+    // c15
+Quote
+    // c16
+{ } // c18a
+  // c18b
+packet Ack // c20
+{ repeat
+    // c22
+InNote66 // c23
+{ u8
+    // c25
+pad0
+    // c26
 ,
-	string _x
-`" ++ [233]%N ++ runes_of_ascii "`
-	, }
+    // c27
+} , // c29
+} packet // c31a
+  // c31b
+Reject { // c33a
+  // c33b
+}
+    // c34
+root // c35
+packet // c36a
+  // c36b
+Order // c37
+{ // c38
+Quote // c39
+,
+    // c40
+repeat Reject // c42a
+  // c42b
+, // c43
+string venue // c45
+,
+    // c46
+string // c47
+seqNo
+    // c48
+, uint32 // c50a
+  // c50b
+Ref
+    // c51
+, // c52
+u16 // c53
+lastPx // c54a
+  // c54b
+, u32 clOrdID @lengthOf( Body // c59a
+  // c59b
+) // c60
+, // c61a
+  // c61b
+match lastPx
+    // c63
+as
+    // c64
+Body // c65
+{
+    // c66
+190 : Reject // c69a
+  // c69b
+, // c70
+186
+    // c71
+:
+    // c72
+Quote
+    // c73
+, // c74
+22 // c75
+: // c76
+Ack ,
+    // c78
+}
+    // c79
+, u16 // c81a
+  // c81b
+Flags // c82a
+  // c82b
+@calculatedFrom(
+    // c83
+""CRC32""
+    // c84
+) , // c86
+}
+    // c87
+")).
+Eval vm_compute in ("<<<M1539>>>" ++ check (runes_of_ascii "// top
+    options  
+  // c0
+    	{ // c1
+uint8x  // c2a
+    // c2b
+	  = 007	// c4a
+	  // c4b
+    ;lengthOf 
+    // c6
+
+	=i8
+
+; // c9a
+    // c9b
+  	}
+
+packet
+i64_
+
+// c12
+	{  // c13
+      @calculatedFrom(// c14
+""1"" 
+    // c15
+    	) // c16
+      @tag(	// c17
+	3
+
+) 
+    // c19
+	  @lengthOf(
+// c20
+  rootA ) 	 // c22
+	  repeat 	 // c23
+int8 // c24a
+  // c24b
+  Packet	// c25a
+
+	// c25b
+    `u8 x,`// c26
+	, // c27
+}// c28a
+  // c28b
+
+  root 
+    // c29
+packet// c30a
+	  // c30b
+    stringy 
+    // c31
+{// c32a
+    	// c32b
+	@rightPad
+
+(
+    ' ' 	 // c35
+	) 	 // c36
+
+	repeat	// c37a
+  // c37b
+  char[ 	 // c38
+
+10  // c39
+
+  ]
+
+    repeatCount 	 // c41a
+  // c41b
+    ,  // c42
+	  @tag( 	 // c43a
+    // c43b
+	255 
+    // c44
+  ) // c45
+  float64 
+        // c46
+  msg_type  
+      // c47
+
+	@calculatedFrom(
+""packet""
+    // c49
+  )  // c50a
+	  // c50b
+	, 	 // c51a
+      // c51b
+    	}  // c52
+")).
+Eval vm_compute in ("<<<M1374>>>" ++ check (runes_of_ascii "options {
+    FixedStringPadFromLeft = true;
+    FixedStringPadChar = '0';
+}
+packet Leg {
+    repeat InSym93 {
+        zchar[3] Acct,
+        string Side2,
+        i32 Flags,
+        f32 Note,
+        i32 msgKind,
+    },
+    f64 Note,
+    uint16 Px,
+}
+packet Quote {
+    zchar[2] OrderId,
+}
+packet Ack {
+    repeat string lastPx,
+    zchar[4] price,
+    uint32 OrderId,
+    Quote,
+    int8 Acct,
+}
+packet Fill {
+    repeat Leg,
+    @rightPad('0') char[11] Note,
+    f64 Px,
+    @rightPad('\x00') char[5] Flags,
+    zchar[9] x,
+    string msgKind,
+}
+root packet Order {
+    Leg,
+    repeat Ack,
+    @rightPad('\x00') char[3] Side2,
+    repeat char[1] seqNo,
+    u16 clOrdID,
+    match clOrdID as Body {
+        198 : Leg,
+        23 : Quote,
+        13 : Ack,
+        159 : Fill,
+    },
+    u32 venue @calculatedFrom(""CR\
+C32""),
+}
+")).
+Eval vm_compute in ("<<<M1124>>>" ++ check (runes_of_ascii "// top
+options
+    // c0
+{ // c1
+uint8x // c2a
+  // c2b
+= 007 // c4a
+  // c4b
+; lengthOf
+    // c6
+= i8 ; // c9a
+  // c9b
+} packet i64_
+    // c12
+{ // c13
+@calculatedFrom( // c14
+""1""
+    // c15
+) // c16
+@tag( // c17
+3 )
+    // c19
+@lengthOf(
+    // c20
+rootA ) // c22
+repeat // c23
+int8 // c24a
+  // c24b
+Packet // c25a
+  // c25b
+`u8 x,` // c26
+, // c27
+} // c28a
+  // c28b
+root
+    // c29
+packet // c30a
+  // c30b
+stringy
+    // c31
+{ // c32a
+  // c32b
+@rightPad ( ' ' // c35
+) // c36
+repeat // c37a
+  // c37b
+char[ // c38
+10 // c39
+] repeatCount // c41a
+  // c41b
+, // c42
+@tag( // c43a
+  // c43b
+255
+    // c44
+) // c45
+float64
+    // c46
+msg_type
+    // c47
+@calculatedFrom( ""packet""
+    // c49
+) // c50a
+  // c50b
+, // c51a
+  // c51b
+} // c52
+")).
+Eval vm_compute in ("<<<M243>>>" ++ check (runes_of_ascii "// a // b
+packet stringy { @tag( 3 ) // trailing space 
+i64
+    len
+,@calculatedFrom( ""1""  ) char[
+0 ]
+x @lengthOf(Foo )
+,@calculatedFrom( """" )
+body
+// c
+// " ++ [128512]%N ++ runes_of_ascii " emoji
+@lengthOf(
+calculatedFrom )`line1
+line2`
+    , @calculatedFrom( ""it's"" // " ++ [128512]%N ++ runes_of_ascii " emoji
+)// packet A { u8 x, }
+match falsey
+    // packet A { u8 x, }
+    as u8x {[
+""" ++ [128512]%N ++ runes_of_ascii """
+    , // a // b
+42 , 1 ,10 ]
+: Header , } ,
+// trailing space 
+// `tick` ""quote"" 'q'
+} MetaData// " ++ [128512]%N ++ runes_of_ascii " emoji
+stringy{ f32a
+    u128 `{ , }` , char[ // a // b
+10 ]u128	, chars _x , zchar[ 65535 // trailing space 
+]/// triple
+falsey
+    `{ , }`
+    , _x i64_
+, int32
+Packet
+`crlf
+line` , } MetaData lengthOf
+{
+    }
+// trailing space 
+")).
+Eval vm_compute in ("<<<M1347>>>" ++ check (runes_of_ascii "
+options { LittleEndian=
+
+    false	;
+ArrayPrefixLenType
+    = u8
+;FixedStringPadFromLeft 
+=
+true;FixedStringPadChar
+= '0';
+
+    }
+packet
+Heartbeat  { 
+string	lastPx,
+
+    uint8
+Qty
+, i64
+    Acct 
+, char[
+
+    4	]
+Ref
+,	} 
 packet
 
-    x_y_z { }	options{	calculatedFrom
-=
-	""CRC32""
-    crc
-=	uint16
-    ;
-	u
+Fill{
 
-=
-false  Foo
-
-=
-char 
-}  // " ++ [128512]%N ++ runes_of_ascii " emoji
-")).
-Eval vm_compute in ("<<<M1739>>>" ++ check (runes_of_ascii "
-options
-	{ FixedStringPadFromLeft = true ;
-
-    FixedStringPadChar  = 
-'0';}
-packet Leg 
-{
-	InPrice0{repeat
-	string	clOrdID 
-, 
-int16
-    msgKind
-
-, 
-zchar[5] Px, } ,i16
-
-f1  ,  repeat
-
-    f64	Side2
-,
-string
-Acct
-    ,
-}  packet
-Cancel
-{
-
-    zchar[4] clOrdID, 
-string
-    seqNo  ,Leg,
-
-@leftPad	(
-'0') char[
-11 
-] OrderId ,  }  packet
-Quote  {
-    repeat
-    char[
-
-4]	sym, 
-f64
-
-OrderId
-
-,repeat
-Leg
-    ,
-repeat i64
-
-f1  , 
-int16
-	Note
-    ,
-
-zchar[ 
-3
-]	count, } root packet
-    Ack
-	{
-@leftPad
-( ' '  )
-char[
-    10
-] sym  ,  InPx60 { 
-Cancel 
+    uint8  Ref
 ,
 
-    repeat  char[ 1 ]	f1
-,
-string Tail
+    Heartbeat
 
-    ,
+, f32
 
-repeat InNote55 { int8
-	count , f64
-	f1
-,  repeat
+    OrderId
+	,repeat
+	f32	x
+    ,}
+root
 
-    Cancel	,
-}
-
-    , 
-char[] 
-tag7 ,
-repeat  string  msgKind, }
-	,u8
-	lastPx
-,
-	match lastPx  as Body{
-
-152: Quote,
-	173
-: Cancel,
-4
-	:
-
-    Leg
-
-,
-
-} , u16  Ref
-@calculatedFrom(	""CRC32""
-)
-
-,
-}
-")).
-Eval vm_compute in ("<<<M1448>>>" ++ check (runes_of_ascii "packet leftPad {
-    //
-    i8 stringy @calculatedFrom(""" ++ [128512]%N ++ runes_of_ascii """),
-    int @calculatedFrom(""a	b"") `it's`,
-    @leftPad()
-    @tag(0123456789)
-    int32 u8x,
-    @lengthOf(A)
-    float64 u128 @calculatedFrom(""a\\""),//x
-}
-
-options {
-    //x
-    Pad = 0
-    u = ' '
-}
-
-MetaData a1 {
-    char[] metadata `// not a comment`,
-}
-
-packet Foo {
-    @tag(42)
-    repeat BodyLength,
-    int8 metadata `{ , }`,
-    @leftPad()
-    // " ++ [27880; 37322]%N ++ runes_of_ascii "
-    @calculatedFrom(""`tick`"")
-    @calculatedFrom(""a	b"")
-    u32 stringy,
-    @lengthOf(roots)
-    zchar[0] msg_type @lengthOf(i64_) `tab	here`,
-    i8 Header `{ , }`,
-    char[7] trueish @lengthOf(packetx),
-    u64 charz `
-        `,
-    zchar[65535] repeatCount `it's`,
-    match calculatedFrom as calculatedFrom {
-        ""a	b"" : roots,
-        42 : MetaDataX,
-    },
-}")).
-Eval vm_compute in ("<<<M1407>>>" ++ check (runes_of_ascii "
-packet	// packet A { u8 x, }
-	u8x
-
-{
-
-}  root packet 
-matchKey
+packet 
+Order
     {
+	zchar[2
+] OrderId,  zchar[  2 ]Acct
+,zchar[1]  Note
 
-repeat
-zchar[	0123456789]  // packet A { u8 x, }
-	int
+    , zchar[ 9
+] 
+Qty ,
+	string	price
+	,
+
+    string
+tag7 , u32  x
+,match	x
+
+    as
+	Body
+{
+    123
+
+:
+	Fill,
+
+112
+    :
+
+    Heartbeat,},	u32 seqNo  @calculatedFrom(
+""CRC32"" ) , }
+")).
+Eval vm_compute in ("<<<M1564>>>" ++ check (runes_of_ascii "
+MetaData
+
+    falsey
+{ } root packet	// `tick` ""quote"" 'q'
+  o
+
+    {
+@tag( 3 	 // " ++ [128512]%N ++ runes_of_ascii " emoji
+  	)
+@calculatedFrom(
+
+""""
+	)
+@lengthOf(pack) char[
+	65535 ] falsey
+@lengthOf(	falsey
+	)
+
+    , }root
+	packet
+	roots
+    {@lengthOf(
+
+chars	)match
+Logon
+
+    as
+    chars
+    { ""`tick`"" :
+
+charz
+// packet A { u8 x, }
+    ""a\\"" :
+    Z9_ 
+007 :	trueish 
+""CRC32""
+    :msg_type  ,
+    [
+
+    3 ,
+3// `tick` ""quote"" 'q'
+  ,
+00,4294967296	, 0
+
+,
+
+7
+
+    ,//
+""x y""  , ""\" ++ [233]%N ++ runes_of_ascii """
+    //	t
+      ]
+:
+
+metadata
     ,
+""a	b"" 
+	//x
+	// " ++ [27880; 37322]%N ++ runes_of_ascii "
+	:
+    crc	}
+,}
+")).
+Eval vm_compute in ("<<<M1333>>>" ++ check (runes_of_ascii "// top
+packet // c0
+u128 {
+    // c2
+u8 // c3a
+  // c3b
+a // c4
+, // c5a
+  // c5b
+} // c6
+root // c7a
+  // c7b
+packet Msg { u8
+    // c11
+k // c12
+,
+    // c13
+u24
+    // c14
+{ u8 Hi // c17a
+  // c17b
+, u16 // c19a
+  // c19b
+Lo ,
+    // c21
+} // c22
+, repeat // c24a
+  // c24b
+i24 { // c26
+u32 // c27a
+  // c27b
+q // c28
+,
+    // c29
+} , // c31
+u128 // c32a
+  // c32b
+, // c33a
+  // c33b
+u16 // c34
+float32x ,
+    // c36
+string // c37
+s
+    // c38
+, // c39a
+  // c39b
+} // c40
+")).
+Eval vm_compute in ("<<<M1378>>>" ++ check (runes_of_ascii "options {
+    LittleEndian = true;
+    StringPrefixLenType = u64;
+    ArrayPrefixLenType = u16;
+    FixedStringPadFromLeft = false;
+    FixedStringPadChar = ' ';
+}
+packet Logon {
+    zchar[5] Side2,
+}
+root packet Logout {
+    repeat i64 Tail,
+    Logon,
+    repeat i16 OrderId,
+    char[] venue,
+    uint64 x,
+    repeat i16 count,
+    u8 Flags,
+    match Flags as Body {
+        25 : Logon,
+    },
+    u16 Qty @calculatedFrom(""CR\
+C32""),
+}
+")).
+Eval vm_compute in ("<<<M1337>>>" ++ check (runes_of_ascii "  options{
+	LittleEndian
+	= false
+	;StringPrefixLenType	=u8
+; ArrayPrefixLenType	=
+u64;	FixedStringPadFromLeft
 
-char[
-	// `tick` ""quote"" 'q'
-  // a // b
-	4294967296
-]
-    asx`{ , }` , 
+    = false 
+;
+	FixedStringPadChar =	' ';
+
+}
+
+packet
+Reject  {
 repeat
-    i8i8 
-,repeat
 
-    Packet
-	{	repeat	leftPad {f32
-    u128@lengthOf(
-    As ),
-body
-`two words`, // packet A { u8 x, }
-rootA
+    char[ 4 ] seqNo,
+    string
 
-    Pad ,
-}  ,
-char[
-    00
-] msg_type 
-`tab	here` // " ++ [128512]%N ++ runes_of_ascii " emoji
-  	,
-repeat
-//x
-  	i64_
-    `doc`
-    ,
-zchar x_y_z,}  ,
+Px
+    ,  }
+	root
+packet Trade	{@rightPad(  '0'
+    )
+char[ 2	] 
+msgKind
 
-    } 
-root 
-packet int{ repeat
-    f32a {repeat	f32a
+,	repeat
+
+    f64
+price ,
+InAcct79
+{ repeat
+Reject
+	,
+zchar[ 
+7 ] OrderId
+,
+}
+
+,	Reject ,}")).
+Eval vm_compute in ("<<<M106>>>" ++ check (runes_of_ascii "MetaData Pad
+    {
+    i16 repeatCount , // c
+f32 pack `a\`,} packet//
+f32a {@lengthOf( metadata // a // b
+)match msg_type as matchKey
+    {
+00: rootA ,  }, @rightPad ( ) match repeatCount as len {
+    [/// triple
+""x y""
+// c
+//
+,
+10] : As , 42: i64_""" ++ [128512]%N ++ runes_of_ascii """	: BodyLength
+, 7
+: f32a  ,
+    }
+    ,	@lengthOf( BodyLength )	repeat Foo `line1
+line2` , } // @lengthOf(")).
+Eval vm_compute in ("<<<M1950>>>" ++ check (runes_of_ascii "packet Header {
+
+    @calculatedFrom(	// a // b
+
+  ""a	b"") char[
+255 ]
+    falsey 
+`tab	here`	,
+int8 
+    // " ++ [27880; 37322]%N ++ runes_of_ascii "
+
+u `doc`
+,	float32
+lengthOf @calculatedFrom( ""a	b""
+	)
+
+// a // b
+
+  ,
+    @rightPad
+(
+' ')  @tag(
+3 )
+
+    float64
 
     asx
 
-    `u8 x,`
-	, } ,
-	@lengthOf(
-	// @lengthOf(
-
-  //	t
-
-msg_type // packet A { u8 x, }
-      )
-body
-    , 
-      // c
-//
-
-Z9_ // c
-    zchar	`a\`//x
-  , }  //x
-")).
-Eval vm_compute in ("<<<M164>>>" ++ check (runes_of_ascii "//x
-packet x { @lengthOf(
-string_ )
-// `tick` ""quote"" 'q'
-// trailing space 
-msg_type{
-int // a // b
-@lengthOf( chars
-    )
-//x
-// " ++ [27880; 37322]%N ++ runes_of_ascii "
-`" ++ [28040; 24687; 31867; 22411]%N ++ runes_of_ascii "` , int`a\`  , }
-    ,uint32 chars  @calculatedFrom(
-""`tick`""
-    )
-    `
-` , @lengthOf( packetx // trailing space 
-)
-match
-    metadata as x_y_z
-{ 65535	: x ,007
-// `tick` ""quote"" 'q'
-// " ++ [128512]%N ++ runes_of_ascii " emoji
-: u [ 7 ,
-""// no comment""	,  """ ++ [28040; 24687]%N ++ runes_of_ascii """] :x ""a\\""
-: MetaDataX,0123456789 : lengthOf
-10 :
-//
-// `tick` ""quote"" 'q'
-float  }
     ,
-    u16 Logon@calculatedFrom(""x y"") `tab	here`
-//	t
-//
-,@lengthOf(Foo ) zchar /// triple
-, }  packet
-    tag { } root packet
-x_y_z{ } MetaData int {
-    string
-A `" ++ [233]%N ++ runes_of_ascii "` ,
-}
-")).
-Eval vm_compute in ("<<<M1239>>>" ++ check (runes_of_ascii "// top
-options // c0
-{ // c1a
-  // c1b
-zchar // c2
-= // c3a
-  // c3b
-true // c4
-; Pad // c6a
-  // c6b
-=
-    // c7
-char[ 00 // c9a
-  // c9b
-]
-    // c10
-a1 = // c12a
-  // c12b
-uint32 // c13a
-  // c13b
-BodyLength = true // c16a
-  // c16b
-;
-    // c17
-} root // c19
-packet // c20
-T // c21a
-  // c21b
-{
-    // c22
-@lengthOf( // c23a
-  // c23b
-repeatCount ) @tag( // c26a
-  // c26b
-1
-    // c27
-) // c28a
-  // c28b
-@calculatedFrom( // c29
-""a	b"" // c30a
-  // c30b
-) // c31a
-  // c31b
-string // c32
-stringy @calculatedFrom( ""\n"" ) // c36
-`u8 x,` // c37a
-  // c37b
-, // c38
-} // c39
-")).
-Eval vm_compute in ("<<<M1348>>>" ++ check (runes_of_ascii "  options
-{ ArrayPrefixLenType = u64
-    ; FixedStringPadFromLeft = true
-    ;
+int8	metadata @lengthOf( zchar
+	) 	 // a // b
+		,Pad
 
-    FixedStringPadChar 
-=	'0'
-	;
-}
-packet Quote
-    {}
-
+    f32a  ,
+} ")).
+Eval vm_compute in ("<<<M1310>>>" ++ check (runes_of_ascii "
 packet
-Ack	{ repeat
-	InNote66
-    {
-u8
-pad0 ,}
-, }packet
-    Reject
+A
+	{
 
-    {
-	}
+u8 a
+	, } packet
+    B 
+{ u16 b
+,
+	} packet
+    C 
+{	u32 
+c,
 
-    root packet
-    Order
-	{	Quote
+}
+	root
+    packet
 
-, repeat	Reject ,
+    M
+	{u16
 
-string
-
-venue,
-string
-seqNo,uint32	Ref
-	, 
-u16
-lastPx
-, 
-u32 clOrdID
-@lengthOf(Body)
+    Kc ,
+u16 Kb
+	, u16
+    Ka
 
 ,
+match  Kc
 
-    match 
-lastPx as
+    as
+X
+	{9
+:A
 
-    Body { 
-190 
-:
-Reject ,
-    186
-
-: Quote,  22:
-Ack
-
-,
-    }
-,u16  Flags @calculatedFrom(  ""CRC32""
-
-    ),	}")).
-Eval vm_compute in ("<<<M33>>>" ++ check (runes_of_ascii "packet
-int {zchar[ 007 ] metadata ,i16	matchKey,
-@rightPad('0')
-@lengthOf(
-    metadata) repeat zchar[
-    10 ]
-//
-// " ++ [128512]%N ++ runes_of_ascii " emoji
-charz
-    // trailing space 
-    ,	} packet int { @tag( 65535 )
-u32 x @calculatedFrom(
-    ""x y""// " ++ [27880; 37322]%N ++ runes_of_ascii "
-),match pack as MetaDataX
-{
-    [	""abc"" ,
-    // " ++ [27880; 37322]%N ++ runes_of_ascii "
-    0123456789 , ""`tick`"" ] :
-body}	, @lengthOf( zchar ) match leftPad as u8x{
-    10:  u8x ,
-[
-007
-    // " ++ [128512]%N ++ runes_of_ascii " emoji
-    , 255
-    ]
-    :
-    chars	"""" :
-    body ,42 : trueish , }, }")).
-Eval vm_compute in ("<<<M1140>>>" ++ check (runes_of_ascii "// top
-MetaData
-    // c0
-leftPad // c1
-{
-    // c2
-chars // c3a
-  // c3b
-MetaDataX // c4
-, // c5a
-  // c5b
-} packet // c7a
-  // c7b
-repeatCount // c8
-{ char[
-    // c10
-255 // c11a
-  // c11b
-] // c12a
-  // c12b
-uint8x
-    // c13
-`" ++ [233]%N ++ runes_of_ascii "` // c14a
-  // c14b
-,
-    // c15
-} // c16a
-  // c16b
-MetaData // c17a
-  // c17b
-pack // c18
-{ // c19a
-  // c19b
-As // c20a
-  // c20b
-Foo
-    // c21
-,
-    // c22
-} // c23a
-  // c23b
-")).
-Eval vm_compute in ("<<<M1515>>>" ++ check (runes_of_ascii "packet	a1
-
-{ char[]
-    charz @calculatedFrom( 
-    //x
-	""" ++ [28040; 24687]%N ++ runes_of_ascii """
-
-    )
-    , uint8x`crlf
-line`
-
-, uint64
-	T
-	`line1
-line2`,  @leftPad
-	(
-'0'
-    ) 
-
-    // a // b
-/// triple
-    @calculatedFrom(""abc""
-	)@tag(3
-)match	int// a // b
-
-as
-len
-{
-0
-: chars  ,
-[
-
-10 , 
-""a\\"" , 1	,
-0
-,10 , 0
-	] :
-
-body, 007 :
-// a // b
-  rootA 	 // a // b
-  ,},
-falsey
-options1,}
-")).
-Eval vm_compute in ("<<<M30>>>" ++ check (runes_of_ascii "packet
-repeatCount
-    {@calculatedFrom(	""abc"" ) zchar[
-    // @lengthOf(
-    0
-] // `tick` ""quote"" 'q'
-MetaDataX  `
-`	, string_
-@calculatedFrom( ""1""
-    ) ,	match string_
-    as msg_type{ [// a // b
-65535	,// a // b
-""a	b""
-    , 7
-    ,	255 ]:
-matchKey , 10 :
-    options1 , 3 :Logon
-    , } ,
-    // " ++ [27880; 37322]%N ++ runes_of_ascii "
-    packetx `a\` ,}
-")).
-Eval vm_compute in ("<<<M321>>>" ++ check (runes_of_ascii "
-options
-{ a1 = '\x00'
-As
-= ""{,}"" u8x
-=//x
-""a	b""
-    ; asx
-    = u64;
-o
-// @lengthOf(
-// c
-=0123456789 } packet Header
-{
-    //
-    @lengthOf(x // trailing space 
-)
-    // " ++ [27880; 37322]%N ++ runes_of_ascii "
-    repeat
-falsey { repeatCount
-    trueish
-`u8 x,` , } ,
-// `tick` ""quote"" 'q'
-// " ++ [128512]%N ++ runes_of_ascii " emoji
-zchar[
-65535 ] x
     ,
-}")).
-Eval vm_compute in ("<<<M1320>>>" ++ check (runes_of_ascii "packet P1 {
-    u8 a,
-}
-packet P2 {
-    P1,
-}
-packet P3 {
-    P2,
-    P1,
-}
-packet P4 {
-    repeat P3,
-    P2,
-}
-root packet P5 {
-    P4,
-    P3,
-    P1,
-    u8 K,
-    match K as Body {
-        4 : P4,
-        3 : P3,
-        2 : P2,
-        1 : P1,
-    },
-}
-")).
-Eval vm_compute in ("<<<M1845>>>" ++ check (runes_of_ascii "// top
-MetaData uint8x {
-    // c2
-    char[] f32a `// not a comment`,
-    // c6
-    float32 roots,
-    // c9
-    char[7] u8x,
-    // c14
-    zchar[10] f32a,
-    // c19
-    u64 pack,
-    // c22
-    u16 pack,
-    // c25
-}
-// c26")).
-Eval vm_compute in ("<<<M207>>>" ++ check (runes_of_ascii "
-MetaData chars { } options
-{ As
-= true ;As // `tick` ""quote"" 'q'
-= false; stringy
-= true} packet repeatCount  {string
-    float@lengthOf(
-    matchKey )
-// packet A { u8 x, }
-//x
-`say ""hi""` ,
-}
-")).
-Eval vm_compute in ("<<<M62>>>" ++ check (runes_of_ascii "packet
-crc { @leftPad //	t
-( ) repeat
-charz float
-    ,} root packet
-options1 {
-@tag( 65535/// triple
-)packetx
-{ u128 , f32 /// triple
-a1 ,
-    } , }
-// trailing space 
-")).
-Eval vm_compute in ("<<<M421>>>" ++ check (runes_of_ascii "packet uint8x
-{ match pack
-    as msg_type msg_type	{
-    0123456789 :	float
-}
+10
+:B  , } ,match	Kb  as
+Y{	2
+: C
+,  1 :A
+
 ,
-} packet //	t
-a1
-    { } options {packetx
-    = '\x00'	; u128= ""a	b""  ; }
-")).
-Eval vm_compute in ("<<<M1639>>>" ++ check (runes_of_ascii "
 
-  packet uint8x{  match  pack as
+} ,  match	Ka
+    as
+Z {
+1 :
+B	, 
+}, A 
+,B
+, C
+,
 
-    msg_type{ 
-0123456789
-: float }
+    }")).
+Eval vm_compute in ("<<<M1911>>>" ++ check (runes_of_ascii "
+options
+{	LittleEndian  =
+true
+
+    ;
+} packet
+    Logon
+	{	u8
+
+    x 
+, string
+	user , 
+} 
+packet Logout
+	{u16 reason 
+, }
+packet
+Empty { }root
+    packet Frame
+{ u16	MsgType,  u8
+BodyLen	@lengthOf(Body
+), u8 flags	,  Logon
+Body
 	,
-    }
-packet	//	t
-a1
-{} options  {packetx
 
-=
-	char;
-u128
-	=""a	b""
-    ; 
+u32 
+trailer 
+,
 }
+
 ")).
-Eval vm_compute in ("<<<M542>>>" ++ check (runes_of_ascii "$ packet uint8x
+Eval vm_compute in ("<<<M1247>>>" ++ check (runes_of_ascii "options { LittleEndian // c2a
+  // c2b
+= // c3
+true
+    // c4
+; } root
+    // c7
+packet P // c9a
+  // c9b
+{ repeat char // c12a
+  // c12b
+cs // c13a
+  // c13b
+, // c14a
+  // c14b
+u8
+    // c15
+x
+    // c16
+, // c17
+}
+    // c18
+")).
+Eval vm_compute in ("<<<M10>>>" ++ check (runes_of_ascii "MetaData //	t
+x{
+    } packet rootA
+//x
+//	t
+{ i64	As
+//x
+// @lengthOf(
+@lengthOf(
+    A )
+`// not a comment` ,
+}
+    options { asx =	string ; i8i8 =zchar[
+0123456789 ];	Foo =10 ; As =true
+; }
+")).
+Eval vm_compute in ("<<<M9>>>" ++ check (runes_of_ascii "
+options {body = """ ++ [28040; 24687]%N ++ runes_of_ascii """ }	packet matchKey
+{string_
+// packet A { u8 x, }
+// a // b
+@lengthOf( f32a) ,	int32 int @lengthOf(u128 )	, tag x_y_z ,}packet BodyLength /// triple
+{ }")).
+Eval vm_compute in ("<<<M73>>>" ++ check (runes_of_ascii "root
+    packet As { //
+char	charz @lengthOf( packetx
+) `{ , }`,//
+char[0123456789
+]
+MetaDataX
+// " ++ [27880; 37322]%N ++ runes_of_ascii "
+// `tick` ""quote"" 'q'
+`it's` , zchar[
+    7]o `u8 x,`
+, }")).
+Eval vm_compute in ("<<<M528>>>" ++ check (runes_of_ascii "packet uint8x
 { match pack
     as msg_type	{
     0123456789 :	float
@@ -919,20 +918,9 @@ Eval vm_compute in ("<<<M542>>>" ++ check (runes_of_ascii "$ packet uint8x
 } packet //	t
 a1
     { } options {packetx
-    = '\x00'	; u128= ""a	b""  ; }
+    = '\x00'	; u128= ""a	b""  packet }
 ")).
-Eval vm_compute in ("<<<M442>>>" ++ check (runes_of_ascii "packet uint8x
-{ match pack
-    as msg_type	{
-    0123456789 :	}
-float
-,
-} packet //	t
-a1
-    { } options {packetx
-    = '\x00'	; u128= ""a	b""  ; }
-")).
-Eval vm_compute in ("<<<M470>>>" ++ check (runes_of_ascii "packet uint8x
+Eval vm_compute in ("<<<M516>>>" ++ check (runes_of_ascii "packet uint8x
 { match pack
     as msg_type	{
     0123456789 :	float
@@ -940,236 +928,268 @@ Eval vm_compute in ("<<<M470>>>" ++ check (runes_of_ascii "packet uint8x
 ,
 } packet //	t
 a1
-     } options {packetx
+    { } options {packetx
+    = '\x00'	; u128= = ""a	b""  ; }
+")).
+Eval vm_compute in ("<<<M427>>>" ++ check (runes_of_ascii "packet uint8x
+{ match pack
+    as msg_type	0123456789
+    { :	float
+}
+,
+} packet //	t
+a1
+    { } options {packetx
     = '\x00'	; u128= ""a	b""  ; }
 ")).
-Eval vm_compute in ("<<<M667>>>" ++ check (runes_of_ascii "// @lengthOf(
-packet i8i8 { u128 o char }
+Eval vm_compute in ("<<<M455>>>" ++ check (runes_of_ascii "packet uint8x
+{ match pack
+    as msg_type	{
+    0123456789 :	float
+}
+,
+ packet //	t
+a1
+    { } options {packetx
+    = '\x00'	; u128= ""a	b""  ; }
+")).
+Eval vm_compute in ("<<<M1936>>>" ++ check (runes_of_ascii "options {
+    f32a = ""a\""b"";
+    Z9_ = ""`tick`""
+    Logon = ""CRC32""
+    u128 = f64;
+    rootA = false;
+}//	t
+
+packet lengthOf {
+}
+
+MetaData len {
+}")).
+Eval vm_compute in ("<<<M664>>>" ++ check (runes_of_ascii "// @lengthOf(
+packet i8i8 { u128 o , }
 options { MetaDataX = true;
-    BodyLength =""packet"" x_y_z= 007
+    BodyLength =""packet"" packet= 007
 crc //x
 = ""abc"" ;
     msg_type =
 i16 }")).
-Eval vm_compute in ("<<<M718>>>" ++ check (runes_of_ascii "// @lengthOf(
+Eval vm_compute in ("<<<M692>>>" ++ check (runes_of_ascii "// @lengthOf(
 packet i8i8 { u128 o , }
 options { MetaDataX = true;
     BodyLength =""packet"" x_y_z= 007
-crc //x
+u8 //x
 = ""abc"" ;
-    msg_type as
+    msg_type =
 i16 }")).
-Eval vm_compute in ("<<<M710>>>" ++ check (runes_of_ascii "// @lengthOf(
-packet i8i8 { u128 o , }
-options { MetaDataX = true;
-    BodyLength =""packet"" x_y_z= 007
-crc //x
-= ""abc"" ;
-    msg_type 
-i16 }")).
-Eval vm_compute in ("<<<M1500>>>" ++ check (runes_of_ascii "packet A {
-    match k as n {
-        [
-            1, ""bb"", 007, ""d"", 5,
-            ""f"", 7, ""h""
-        ] : B,
-        2 : C,
-    },
-}")).
-Eval vm_compute in ("<<<M1814>>>" ++ check (runes_of_ascii "  packet B
-{ u8
-a,
-
-    }
-root
-	packet
-P  { u8
-	K, 
-u8 L
-
-    @lengthOf(
-Body
-
-    )
+Eval vm_compute in ("<<<M519>>>" ++ check (runes_of_ascii "packet uint8x
+{ match pack
+    as msg_type	{
+    0123456789 :	float
+}
 ,
-	match  K	as
-
-Body	{1 : B
-	, }, }
-")).
-Eval vm_compute in ("<<<M1572>>>" ++ check (runes_of_ascii "packet A {
-    u16 len @lengthOf(body) `x
-        `,
-    u32 crc @calculatedFrom(""CRC32"") `x
-        `,
-    string body,
-}")).
-Eval vm_compute in ("<<<M1156>>>" ++ check (runes_of_ascii "MetaData leftPad { chars MetaDataX , }
-// c
-packet repeatCount { char[ 255 ] uint8x `" ++ [233]%N ++ runes_of_ascii "` , } MetaData pack { As Foo , }")).
-Eval vm_compute in ("<<<M1188>>>" ++ check (runes_of_ascii "MetaData leftPad { chars MetaDataX , } packet repeatCount { char[ 255 ] uint8x `" ++ [233]%N ++ runes_of_ascii "` , } MetaData pack { As Foo ,
-// c
-}")).
-Eval vm_compute in ("<<<M1844>>>" ++ check (runes_of_ascii "  packet A  {
-
-    match k
-as
-n {
-[ 1 
-,
-
-""bb""	,007
-	,
-
-""d"" ,
-    5,""f"",
-
-    7
-]: B  2:
-C
+} packet //	t
+a1
+    { } options {packetx
+    = '\x00'	; u128")).
+Eval vm_compute in ("<<<M1718>>>" ++ check (runes_of_ascii "MetaData leftPad {
+    chars MetaDataX,
 }
 
-    ,
+packet repeatCount {
+    char[255] uint8x `" ++ [233]%N ++ runes_of_ascii "`,
+}
 
-} ")).
-Eval vm_compute in ("<<<M142>>>" ++ check (runes_of_ascii "packet
-len
-    // " ++ [128512]%N ++ runes_of_ascii " emoji
-    { int64 a1	@lengthOf(x_y_z )	, }
-// c
-// trailing space 
-packet x_y_z { }
-
+MetaData pack {
+    // c
+    As Foo,
+}")).
+Eval vm_compute in ("<<<M1264>>>" ++ check (runes_of_ascii "packet B {
+    u8 a,
+}
+root packet P {
+    u8 K,
+    match K as Body {
+        1 : B,
+    },
+    u16 L @lengthOf(Body),
+}
 ")).
-Eval vm_compute in ("<<<M896>>>" ++ check (runes_of_ascii "packet A {
+Eval vm_compute in ("<<<M1151>>>" ++ check (runes_of_ascii "MetaData leftPad { chars MetaDataX // c
+, } packet repeatCount { char[ 255 ] uint8x `" ++ [233]%N ++ runes_of_ascii "` , } MetaData pack { As Foo , }")).
+Eval vm_compute in ("<<<M1183>>>" ++ check (runes_of_ascii "MetaData leftPad { chars MetaDataX , } packet repeatCount { char[ 255 ] uint8x `" ++ [233]%N ++ runes_of_ascii "` , } MetaData pack { As // c
+Foo , }")).
+Eval vm_compute in ("<<<M894>>>" ++ check (runes_of_ascii "packet A {
   match k as n {
-    [1, ""bb"", 007, ""d"", 5, ""f"", 7, ""h"", 9, ""j"", 11] : B
+    [""a"", ""bb"", ""c c"", ""d"", ""e"", ""f"", ""g"", ""h"", ""i"", ""j"", ""k""] : B
     2 : C
   },
 }")).
-Eval vm_compute in ("<<<M905>>>" ++ check (runes_of_ascii "packet A {
-  match k as n {
-    [1, 22, 007, 4, 5, 66, 7, 8, 9, 10, 11, 12] : B
-    2 : C
-  },
+Eval vm_compute in ("<<<M49>>>" ++ check (runes_of_ascii "options  { f32a = true;  metadata =""CRC32"" ;
+body // " ++ [27880; 37322]%N ++ runes_of_ascii "
+=
+char ; A =
+float64	;
+} MetaData
+    rootA { }")).
+Eval vm_compute in ("<<<M1713>>>" ++ check (runes_of_ascii "packet A {
+    Inner {
+        match k as n {
+            [1, 22, 007, 4, 5] : B,
+        },
+    },
 }")).
-Eval vm_compute in ("<<<M580>>>" ++ check (runes_of_ascii "
+Eval vm_compute in ("<<<M590>>>" ++ check (runes_of_ascii "
 packet
-    asx {match u128 char[ lengthOf
-{
+    asx {match u128 as lengthOf
+MetaData
 //	t
 // `tick` ""quote"" 'q'
 255 : x ,
     } ,	}")).
-Eval vm_compute in ("<<<M636>>>" ++ check (runes_of_ascii "
+Eval vm_compute in ("<<<M891>>>" ++ check (runes_of_ascii "packet A {
+  match k as n {
+    [1, 22, 007, 4, 5, 66, 7, 8, 9, 10, 11] : B,
+    2 : C
+  },
+}")).
+Eval vm_compute in ("<<<M1426>>>" ++ check (runes_of_ascii "packet A {
+    match k as n {
+        [""a"", 22, ""c c"", 4, ""e""] : B,
+        2 : C,
+    },
+}")).
+Eval vm_compute in ("<<<M619>>>" ++ check (runes_of_ascii "
 packet
     asx {match u128 as lengthOf
 {
 //	t
-// `ti/ck` ""quote"" 'q'
-255 : x ,
-    } ,	}")).
-Eval vm_compute in ("<<<M575>>>" ++ check (runes_of_ascii "
-packet
-    asx {match u64 as lengthOf
-{
-//	t
 // `tick` ""quote"" 'q'
 255 : x ,
-    } ,	}")).
-Eval vm_compute in ("<<<M572>>>" ++ check (runes_of_ascii "
-packet
-    asx {match  as lengthOf
-{
-//	t
-// `tick` ""quote"" 'q'
-255 : x ,
-    } ,	}")).
-Eval vm_compute in ("<<<M847>>>" ++ check (runes_of_ascii "packet A {
-  match k as n {
-    [1, 22, ""c c"", 4, 5, ""f"", 7] : B,
-    2 : C
-  },
-}")).
-Eval vm_compute in ("<<<M1591>>>" ++ check (runes_of_ascii "packet A {
-    match k as n {
-        [""a"", ""bb""] : B,
-        2 : C,
-    },
-}")).
-Eval vm_compute in ("<<<M67>>>" ++ check (runes_of_ascii "options { charz =""1"" _x= """ ++ [128512]%N ++ runes_of_ascii """ u = string ; stringy=
-""" ++ [28040; 24687]%N ++ runes_of_ascii """ }
-// @lengthOf(
-")).
-Eval vm_compute in ("<<<M1796>>>" ++ check (runes_of_ascii "packet A {
-    match k as n {
-        [1] : B,
-        2 : C,
-    },
-}")).
-Eval vm_compute in ("<<<M780>>>" ++ check (runes_of_ascii "packet A {
-  match k as n {
-    [""a"", ""bb""] : B,
-    2 : C
-  },
-}")).
-Eval vm_compute in ("<<<M439>>>" ++ check (runes_of_ascii "packet uint8x
-{ match pack
-    as msg_type	{
-    0123456789")).
-Eval vm_compute in ("<<<M774>>>" ++ check (runes_of_ascii "packet A {
-  match k as n {
-    [1] : B
-    2 : C
-  },
-}")).
-Eval vm_compute in ("<<<M1201>>>" ++ check (runes_of_ascii "packet body // c
-{ i32 f32a `{ , }` , } options { }")).
-Eval vm_compute in ("<<<M1482>>>" ++ check (runes_of_ascii "
-packet
-A
-{	u8
-    x  `d" ++ [12288]%N ++ runes_of_ascii "`
+    } }	,")).
+Eval vm_compute in ("<<<M1413>>>" ++ check (runes_of_ascii "  packet
 
-    , 	 // c" ++ [12288]%N ++ runes_of_ascii "
-  }
+    A	{
+	match
+
+    k as n{ [	1
+
+,
+22
+
+]
+	:
+B
+
+    2
+	:
+    C }  ,  }
+
 ")).
-Eval vm_compute in ("<<<M968>>>" ++ check (runes_of_ascii "options {
-    a = ""x\
-y"";
-    b = ""x\
-y""
+Eval vm_compute in ("<<<M553>>>" ++ check (runes_of_ascii "
+
+    asx {match u128 as lengthOf
+{
+//	t
+// `tick` ""quote"" 'q'
+255 : x ,
+    } ,	}")).
+Eval vm_compute in ("<<<M616>>>" ++ check (runes_of_ascii "
+packet
+    asx {match u128 as lengthOf
+{
+//	t
+// `tick` ""quote"" 'q'
+255 : x ,")).
+Eval vm_compute in ("<<<M1282>>>" ++ check (runes_of_ascii "root 
+packet
+
+    P  { u16	a ,
+
+u32
+
+Sum	@calculatedFrom( ""CRC32""
+	) ,
+
+} ")).
+Eval vm_compute in ("<<<M1633>>>" ++ check (runes_of_ascii "  packet
+
+    A {
+
+match
+k as n
+{
+1 
+:
+
+B	,
+        // c
+    } ,
+}
+")).
+Eval vm_compute in ("<<<M787>>>" ++ check (runes_of_ascii "packet A {
+  match k as n {
+    [1, 22, 007] : B,
+    2 : C
+  },
+}")).
+Eval vm_compute in ("<<<M1126>>>" ++ check (runes_of_ascii "// top
+MetaData
+    // c0
+u
+    // c1
+{
+    // c2
+}
+    // c3
+")).
+Eval vm_compute in ("<<<M1753>>>" ++ check (runes_of_ascii "  packet 
+A { }
+	packet B{
+
+} MetaData M	{ } options
+
+{
+	}")).
+Eval vm_compute in ("<<<M1219>>>" ++ check (runes_of_ascii "packet body { i32 f32a `{ , }` , } options { } // c
+")).
+Eval vm_compute in ("<<<M341>>>" ++ check (runes_of_ascii "options  { len = // " ++ [128512]%N ++ runes_of_ascii " emoji
+""packet"" int
+= ""abc""}")).
+Eval vm_compute in ("<<<M1630>>>" ++ check (runes_of_ascii "root packet A {
+    u8 x `tab
+        	x`,
 }")).
 Eval vm_compute in ("<<<M591>>>" ++ check (runes_of_ascii "
 packet
     asx {match u128 as lengthOf")).
-Eval vm_compute in ("<<<M132>>>" ++ check (runes_of_ascii "options
-    { Foo = 0123456789
-; }")).
-Eval vm_compute in ("<<<M1543>>>" ++ check (runes_of_ascii "root packet P {
-    string s,
+Eval vm_compute in ("<<<M1647>>>" ++ check (runes_of_ascii "root packet A {
+    u8 x `
+    `,
 }")).
-Eval vm_compute in ("<<<M923>>>" ++ check (runes_of_ascii "packet A {
+Eval vm_compute in ("<<<M1768>>>" ++ check (runes_of_ascii "packet A {
     u8 x `a
-b`,
+    b`,
 }")).
-Eval vm_compute in ("<<<M1898>>>" ++ check (runes_of_ascii "MetaData tag {
-    // c
+Eval vm_compute in ("<<<M1053>>>" ++ check (runes_of_ascii "packet A {
+ u8 x `d" ++ [65279]%N ++ runes_of_ascii "`, // c" ++ [65279]%N ++ runes_of_ascii "
 }")).
-Eval vm_compute in ("<<<M1106>>>" ++ check (runes_of_ascii "MetaData
-// c
-tag { }")).
-Eval vm_compute in ("<<<M1132>>>" ++ check (runes_of_ascii "MetaData u // c
-{ }")).
-Eval vm_compute in ("<<<M1026>>>" ++ check (runes_of_ascii "packet A {
-}
-// c" ++ [8287]%N)).
-Eval vm_compute in ("<<<M1009>>>" ++ check (runes_of_ascii "packet A {
-}// c" ++ [8232]%N)).
-Eval vm_compute in ("<<<M761>>>" ++ check (runes_of_ascii "{];z" ++ [65533]%N ++ runes_of_ascii """t" ++ [65533; 65533; 65533]%N ++ runes_of_ascii "XKU" ++ [65533; 2]%N)).
-Eval vm_compute in ("<<<M29>>>" ++ check (runes_of_ascii "// " ++ [27880; 37322]%N ++ runes_of_ascii "
-
+Eval vm_compute in ("<<<M929>>>" ++ check (runes_of_ascii "packet A {
+    u8 x `
+`,
+}")).
+Eval vm_compute in ("<<<M1479>>>" ++ check (runes_of_ascii "packet x
+{} 
+    // c")).
+Eval vm_compute in ("<<<M162>>>" ++ check (runes_of_ascii "
+packet f32a  { }
 ")).
-Eval vm_compute in ("<<<M1808>>>" ++ check (runes_of_ascii "
-//
+Eval vm_compute in ("<<<M1001>>>" ++ check (runes_of_ascii "packet A {
+}
+// c" ++ [8192]%N)).
+Eval vm_compute in ("<<<M277>>>" ++ check (runes_of_ascii "MetaData i64_ { }")).
+Eval vm_compute in ("<<<M356>>>" ++ check (runes_of_ascii "packet uint8x {}")).
+Eval vm_compute in ("<<<M750>>>" ++ check (runes_of_ascii "uk%W,3^r>l")).
+Eval vm_compute in ("<<<M293>>>" ++ check (runes_of_ascii "  
+
 ")).
